@@ -1,7 +1,9 @@
 """Per-property checks on generated code (directive level)."""
 import gen_checks as G
 
-RULE = ("programs: seeded random well-formed Flow/Parallel programs (typed DAGs, predicates, fallbacks, slices, maps, End "
+RULE = ("spec: TLC explores Flow.tla / Parallel.tla (templates transcribed step by step on the scheduler contract, feeding the "
+        "monitor DirSys.tla) for seeded small programs x every outcome x schedule x concurrency x cancellation instant (states); "
+        "impl: programs: seeded random well-formed Flow/Parallel programs (typed DAGs, predicates, fallbacks, slices, maps, End "
         "hooks, emitters; option order shuffled; value types spelled as struct/pointer/named int/slice/map/generic/"
         "imported) rendered to source, compiled by the cff built from /repo; one evaluation = one execution of one "
         "generated function under one scenario (outcome per user function, delays, concurrency, cancellation; one "
@@ -12,6 +14,13 @@ def directive(prop, q=(160, 100, 6), t=(1600, 1000, 12), par_exec=0):
     def check(c):
         nflow, npar, nscen = q if c.quick else t
         rounds = 1 if c.quick else 4
+        # design level: the templates as transcribed in Flow.tla / Parallel.tla never make the monitor record a
+        # violation, for every outcome / schedule / concurrency / cancellation instant of small programs
+        if c.quick:
+            G.spec_directive(c, *G.small_programs(c, 30, 25, max_tasks=3, max_insts=4))
+        else:
+            G.spec_directive(c, *G.small_programs(c, 120, 0, max_tasks=4), name="dirbig")
+            G.spec_directive(c, *G.small_programs(c, 0, 40, max_insts=6), name="dirbigp", timeout=3400)
         for r in range(rounds):
             G.pipeline(c, nflow // rounds if not c.quick else nflow, npar // rounds if not c.quick else npar, nscen,
                        seed_off=r, par_exec=par_exec)
@@ -35,8 +44,11 @@ REGISTRY = {
 import os, json, re, subprocess, shutil, random
 import render
 from vlib import Inconclusive, GOENV
+from vlib import REPO as vlib_REPO
 
-GRULE = ("programs: seeded random well-formed Flow/Parallel programs rendered into multi-file packages with varying "
+GRULE = ("spec: TLC explores Flow.tla / Parallel.tla (templates transcribed step by step on the scheduler contract, feeding the "
+        "monitor DirSys.tla) for seeded small programs x every outcome x schedule x concurrency x cancellation instant (states); "
+        "impl: programs: seeded random well-formed Flow/Parallel programs rendered into multi-file packages with varying "
          "import aliases (cff, context, a user package named time/debug/multierr), build-constraint spellings and "
          "surrounding declarations; the cff binary is rebuilt from /repo and run on every package in the listed modes")
 
@@ -120,8 +132,8 @@ def c16(c):
     troot = os.path.join(c.scratch, "vtag")
     os.makedirs(troot)
     c.run([tagcheck, "gen", "-in", path, "-out", troot], 600)
-    open(os.path.join(troot, "go.mod"), "w").write("module vtag\n\ngo 1.19\n\nrequire go.uber.org/cff v0.1.0\n\nreplace go.uber.org/cff => /repo\n")
-    shutil.copy("/repo/internal/tests/go.sum", os.path.join(troot, "go.sum"))
+    open(os.path.join(troot, "go.mod"), "w").write("module vtag\n\ngo 1.19\n\nrequire go.uber.org/cff v0.1.0\n\nreplace go.uber.org/cff => %s\n" % vlib_REPO)
+    shutil.copy(vlib_REPO + "/internal/tests/go.sum", os.path.join(troot, "go.sum"))
     for g in sorted(os.listdir(troot)):
         if not re.match(r"g[01][01]$", g):
             continue
